@@ -28,7 +28,11 @@ Several output assemblies part: "every FASTA file written" by one run of the com
 two or more output assemblies; every x.*.fa is judged against the x.*.agp of the same name beside it as above, the
 .fa and .agp files of a run pair up one to one, and "the AGP beside the FASTA lists the same rows [as the
 assembly]": its objects and rows equal those of the file of that name written by the same command with
---output x.agp (the command's own AGP rendering of that assembly).
+--output x.agp (the command's own AGP rendering of that assembly).  The Primary tag is only put where --help says it
+goes, on the first Painted scaffold of its haplotype in the map.  NOT generated (the unchanged tree writes two records
+named SUPER_1 into x.1.all_haplotigs.curated.fa; reported, not yet a known finding): a Primary tag on a later
+scaffold of its haplotype, e.g. [scaffold_1 Painted Hap1], [scaffold_2:1-40 Painted Hap2], [scaffold_2:41-80 Painted
+Hap1 Primary]; neither are maps with three or more haplotypes.
 
 State carried between calls part: a FastaIndex outlives a FastaStream.  Several streams are written one after the
 other through one FastaIndex object (and through a second index object on the same file), differing in gap
@@ -122,6 +126,25 @@ def streams_check(path, idx, bs, seqs, steps):
         for fi in fis.values():
             close_index(fi)
     return []
+
+
+def single_step(scaffolds, line_length, use_assembly):
+    return {"scaffolds": scaffolds, "line_length": line_length, "assembly": use_assembly, "gap": None, "index": 0}
+
+
+def with_history(path, idx, bs, seqs, history, step, msgs, inp):
+    """
+    a failure seen on a FastaIndex object that has served earlier streams: when the stream alone (fresh index object)
+    is right, the recorded input is the sequence of streams that leads to it -> (messages, input)
+    """
+    if not history or streams_check(path, idx, bs, seqs, [step]):
+        return msgs, inp
+    for tail in (history[-12:], history):
+        steps = [*tail, step]
+        again = streams_check(path, idx, bs, seqs, steps)
+        if again:
+            return again, {"kind": "streams", "case": inp["case"], "index_buffer": inp["index_buffer"], "buffer": bs, "steps": steps}
+    return msgs, inp
 
 
 def replay(inp):
@@ -330,8 +353,8 @@ def fixed_step_sequences(scs):
     def st(gap, index=0, ll=60, sc=scs, asm=True):
         return {"scaffolds": sc, "line_length": ll, "assembly": asm, "gap": gap, "index": index}
 
-    for a in GAP_CHARS:
-        for b in GAP_CHARS:
+    for b in GAP_CHARS:  # the later stream: the default one first
+        for a in GAP_CHARS:
             if a != b:
                 yield [st(a), st(b)]
     yield [st("n"), st(None, 1), st(None)]
@@ -656,6 +679,7 @@ def run(tier, seed, **opts):
                 buffers = [*range(1, 15), 250_000]
             for bs in buffers:
                 fi = make_index(path, bs, idx)
+                history = []  # the streams this index object has served
                 try:
                     for r in case.records:
                         L = len(r.seq)
@@ -668,8 +692,11 @@ def run(tier, seed, **opts):
                                         scs = [(f"x{n % 7}", [["F", r.name, s, e, strand]])]
                                         msgs = stream_check(fi, seqs, scs, ll, False)
                                         inp = {"kind": "stream", "case": spec, "index_buffer": 250_000, "buffer": bs, "scaffolds": scs, "line_length": ll}
+                                        step = single_step(scs, ll, False)
                                         if msgs:
+                                            msgs, inp = with_history(path, idx, bs, seqs, history, step, msgs, inp)
                                             col.fail(msgs[0], inp)
+                                        history.append(step)
                                         col.case((case.key(), bs, ll, r.name, s, e, strand), sample=inp if n == 4000 else None)
                         if col.full:
                             break
@@ -687,6 +714,7 @@ def run(tier, seed, **opts):
         idx, _ = index_fasta_file(path, 250_000)
         for bs in range(1, 9 if quick else 14):
             fi = make_index(path, bs, idx)
+            history = []
             try:
                 for glen in range(0, 3 * bs + 3):
                     for ll in (1, 2, 3, 5, 60) if quick else line_lengths_all:
@@ -700,8 +728,11 @@ def run(tier, seed, **opts):
                             scs = [("g", rows)]
                             msgs = stream_check(fi, seqs, scs, ll, True)
                             inp = {"kind": "stream", "case": case.spec(), "index_buffer": 250_000, "buffer": bs, "scaffolds": scs, "line_length": ll, "assembly": True}
+                            step = single_step(scs, ll, True)
                             if msgs:
+                                msgs, inp = with_history(path, idx, bs, seqs, history, step, msgs, inp)
                                 col.fail(msgs[0], inp)
+                            history.append(step)
                             col.case(("gap", bs, glen, ll, shape), nontrivial=glen > 0 or shape > 0, sample=inp if (bs, glen, ll, shape) == (2, 5, 3, 1) else None)
             finally:
                 close_index(fi)
@@ -855,11 +886,19 @@ def run(tier, seed, **opts):
             except Exception:  # noqa: BLE001
                 G.remove_with_caches(path)
                 continue  # reported by the parts above
-            for bi, bs in enumerate((3, 1, 16, 250_000) if quick else (1, 2, 3, 4, 5, 7, 16, 61, 250_000)):
+            all_bs = (1, 2, 3, 4, 5, 7, 16, 61, 250_000)
+            if quick:
+                buffers = (3, 1, 16, 250_000)
+            elif ci < 3:
+                buffers = all_bs
+            else:
+                buffers = sorted({all_bs[(ci + j * 4) % len(all_bs)] for j in range(3)})
+            for bi, bs in enumerate(buffers):
                 plans = list(fixed_step_sequences(gap_panel(case, bs, rng if ci else None)))
-                if quick and (ci or bi):
+                # all fixed sequences for the first file (quick: at buffer 3 only), every fourth one elsewhere
+                if (quick and (ci or bi)) or ci >= 3:
                     plans = plans[(ci + bi) % 4 :: 4]
-                plans += [random_steps(rng, case, bs) for _ in range(2 if quick else 60)]
+                plans += [random_steps(rng, case, bs) for _ in range(2 if quick else 30 if ci < 3 else 20)]
                 for pi, steps in enumerate(plans):
                     if col.full:
                         break
